@@ -4,9 +4,15 @@ package helpers
 
 // Contracts for the verifier in /verif (govc). Comment-only.
 
+//@ spec func namedNumericZero(v Val) bool
 //@ spec func truthySpec(v Val) bool {
 //@   isNil(v) ? false : isBool(v) ? asBool(v) : isString(v) ? (asString(v) != "" && asString(v) != "false")
-//@   : isInteger(v) ? asInt(v) != 0 : isFloat(v) ? !fpIsZero(v) : true }
+//@   : isInteger(v) ? asInt(v) != 0 : isFloat(v) ? !fpIsZero(v) : !namedNumericZero(v) }
+
+//@ func isNamedNumericZero(val) (r)
+//@   pure
+//@   trusted
+//@   ensures r == namedNumericZero(val)
 
 //@ func IsTruthy(val) (r)
 //@   pure
